@@ -1581,6 +1581,16 @@ func probe() {
 		t := time.Now()
 		op := runSpecRetry(c, r)
 		fmt.Printf("%6.1fms %s\n", float64(time.Since(t).Microseconds())/1000, op)
+		if i%2 == 0 {
+			kind := []string{"q", "bl", "bu", "bc"}[r.Intn(4)]
+			idem := []string{"0", "1"}[r.Intn(2)]
+			if kind != "q" {
+				idem = genPattern(r)
+			}
+			t = time.Now()
+			op = runSpec(kind, idem, r.Intn(4), 1+r.Intn(5), r.Intn(6) == 0, r)
+			fmt.Printf("%6.1fms %s\n", float64(time.Since(t).Microseconds())/1000, op)
+		}
 	}
 	fmt.Printf("total %v attempts=%d rounds=%d multi=%d\n", time.Since(t0), concAttempts, barRounds, barMulti)
 }
